@@ -72,7 +72,10 @@ class Grid(col.MutableSequence):
     @staticmethod
     def _approx_check(v1, v2):
         # Kinds must match before any kind-specific comparison is attempted
-        if isinstance(v1, datetime.time) or isinstance(v2, datetime.time):
+        if isinstance(v1, bool) or isinstance(v2, bool):
+            # A Bool is not a Number (Python's True == 1)
+            return isinstance(v1, bool) and isinstance(v2, bool) and v1 == v2
+        elif isinstance(v1, datetime.time) or isinstance(v2, datetime.time):
             return isinstance(v1, datetime.time) and \
                    isinstance(v2, datetime.time) and \
                    v1.replace(microsecond=0) == v2.replace(microsecond=0)
@@ -94,11 +97,21 @@ class Grid(col.MutableSequence):
                    Grid._approx_check(v1.latitude, v2.latitude) and \
                    Grid._approx_check(v1.longitude, v2.longitude)
         elif isinstance(v1, float) or isinstance(v2, float):
-            return isinstance(v1, numbers.Number) and \
-                   isinstance(v2, numbers.Number) and \
-                   abs(v1 - v2) < 0.000001
+            if not (isinstance(v1, numbers.Number) and
+                    isinstance(v2, numbers.Number)):
+                return False
+            if v1 == v2 or (v1 != v1 and v2 != v2):
+                return True  # the same number, infinities and NaN included
+            try:
+                return abs(v1 - v2) < 0.000001
+            except OverflowError:
+                return False
         else:
-            return v1 == v2
+            try:
+                return bool(v1 == v2)
+            except TypeError:
+                # e.g. lists holding quantities of different units
+                return False
 
     def __eq__(self, other):
         if not isinstance(other, Grid):
